@@ -24,6 +24,14 @@ CLAIMED = {
             "(b) for every string of <= N symbolic bytes and every available-prefix length: the decoder accepts iff an independent reference decoder finds a well-formed message whose chunks tile exactly, decoded fields equal the reference's, consumed bytes = 40+declared, oversized messages are refused after exactly 40 bytes, and an accepted message re-encodes to an equivalent one (N=54 quick, 68 thorough).",
             "Trusted: z3, the meta-interpreter (every explored path is re-run natively on its model and observations compared), the struct model (generated from the format string; validated natively per path), the zlib contract stub (decompress(compress(x))=x, 1<=len<=len(x)+64; other input raises or yields arbitrary bytes). Outside: DEFLATE itself, byte strings longer than N, more than CUTS cut points, annotation keys outside the listed ones in (a).",
             "DESIGN.md section 4 C06"),
+    "C19": (E1, "symbolic execution of the real URI parser/printer/eq/hash (AST meta-interpreter + z3) on symbolic code-point strings; regexes matched by a backtracking matcher generated from re's own parse tree; int()/%d by Unicode-aware models",
+            "For every string = one of the listed protocol prefixes (letter-case variants, near misses, empty) followed by up to L arbitrary Unicode code points (L=7 quick, 10 thorough) and every NS_PORT: if URI(s) is accepted then str(u) is accepted again, parses to an equal URI with equal fields and equal hash, is a fixed point, and the state/copy round trips are equal; plus, for two URIs with arbitrary symbolic state over an ASCII name alphabet, ==, !=, hash, location and text are mutually consistent. Four classes of genuine violations are listed in known_findings.json and split off by solver predicates.",
+            "Trusted: z3, the meta-interpreter and the regex/int/str models (every explored path is re-run natively on its model with the real re/int and the observations compared). Outside: strings longer than the bound, serializer transport of the state tuple (C01), lone surrogates.",
+            "DESIGN.md section 4 C19"),
+    "C02": (E1, "symbolic execution of the real Daemon.handleRequest dispatch and exposure gates (AST meta-interpreter + z3) with a symbolic member name (any code points) and symbolic flag bits; getattr with a symbolic name forks over exactly the names Python's lookup can find",
+            "For three class shapes (per-member, whole-class, unexposed; instance/static/class methods, properties, plain attributes, helper objects, base-class members, oneway marks), all five request kinds, every member name of up to L code points (L=12 quick, 20 thorough) or a non-string, and arbitrary remaining flag bits: a member's code runs only if the name denotes a member the declarative Exposed(shape) table allows for that request kind; refused requests leave the object unchanged and get exactly one error reply (none when oneway); served requests get one result reply; get_metadata equals the table and served implies advertised. Two genuine violation classes are known findings.",
+            "Trusted: z3, the meta-interpreter (paths re-run natively on their models), the codec boundary stub (payload token <-> python value), uuid/thread/traceback stubs. Outside: classes with __getattr__/metaclass tricks, names longer than the bound, the codecs themselves.",
+            "DESIGN.md section 4 C02"),
 }
 
 NOT_YET = "check not built yet (build in progress; see DESIGN.md section 7)"
